@@ -471,6 +471,10 @@ def deep_copy(it, v, node, deep=True):
         r.obj.is_parameter = v.obj.is_parameter
         return r
     if isinstance(v, VObj):
+        # a class that defines its own __deepcopy__ / __copy__ is copied by that method
+        hook = "__deepcopy__" if deep else "__copy__"
+        if v.inst.cls is not None and v.inst.cls.find_method(hook) is not None:
+            return it.call_method(v, hook, [it.new_dict({})] if deep else [], {}, node)
         inst = Instance(v.inst.cls)
         inst.ext = v.inst.ext
         it.all_insts.append(inst)
@@ -1479,6 +1483,9 @@ def ext_base_has(ext_bases, attr):
 def ext_base_attr(it, objv, ext_bases, attr, node):
     for e in list(ext_bases) + ["object"]:
         if e == "torch.nn.Module":
+            if attr == "_parameters":
+                # nn.Module keeps its parameters in this ordered dict (a snapshot is enough for reads)
+                return it.new_dict({n: p for n, p in module_params(it, objv)})
             if attr in module_api()[0]:
                 return VBound(objv, "nn.Module." + attr)
         elif e in ("abc.ABC", "object"):
@@ -1503,6 +1510,10 @@ def ext_obj_attr(it, objv, attr, node):
     inst = objv.inst
     if attr in inst.attrs:
         return inst.attrs[attr]
+    if attr == "_parameters" and inst.cls is not None:
+        # nn.Module keeps its parameters in this dict (a snapshot is enough for reads)
+        d = it.new_dict({n: p for n, p in module_params(it, objv)})
+        return d
     return VBound(objv, attr)
 
 
